@@ -6,7 +6,7 @@ from_slice_bounds on the same read with the same (start, len); from_slice_bounds
 start > 0 from base start-1 in the low nibble, right flank ⇔ start+len < read length from base start+len in the high
 nibble, none at a read end); Vmer::from_slice writes every base; plus the minimizer scan itself (C07's abstract scan and
 order tables: the same p-mer wins in every k-mer that contains it)."""
-from .. import dt_msp, lemmas
+from .. import dt_msp, lemmas, structural
 from . import common
 
 ASSUMPTIONS = ["that two occurrences of one k-mer see the same minimizer follows from C07's clauses (minimal p-mer, ties to the larger position) and is not re-derived here"]
@@ -27,3 +27,6 @@ def run(F, rep):
     rep.run(common.run_kmer_lemmas, F, rep, {"canon"})
     # the scanner takes its first p-mer of every window with get_kmer on the read, which may be a (reverse-complemented) view
     rep.run(common.run_store_kmer_lemmas, F, rep, "C08.7")
+    # "every occurrence of the same k-mer … the same bucket id": the bucket must be a function of the k-mer and the call's parameters, not of
+    # earlier calls — state that outlives a call (thread-local caches) must be keyed by everything its content depends on
+    rep.run(structural.cache_key_rule, F, rep, "C08.8", ["msp::msp_sequence", "msp::simple_scan"])
